@@ -118,6 +118,7 @@ def try_with_location(location):
   try:
     yield
   except Exception as exception:  # pylint: disable=broad-except
-    if isinstance(exception, SyntaxError):
-      raise  # SyntaxErrors already include location information.
+    if (isinstance(exception, SyntaxError) and
+        not getattr(exception, 'gin_location_missing', False)):
+      raise  # Gin's own SyntaxErrors already include location information.
     augment_exception_message_and_reraise(exception, _format_location(location))
